@@ -275,6 +275,7 @@ impl<'a> Tr<'a> {
         } else {
             let q = self.fresh("q");
             comps.push(q.clone());
+            self.last_effect_result = Some(q.clone());
             (L::atom(q), ret.clone())
         };
         if comps.len() > 1 {
@@ -506,6 +507,20 @@ impl<'a> Tr<'a> {
                     Some(pr) if pr.args.is_none() => self.apply_prim(&pr, vec![], e.span()),
                     _ => self.unsupported(e.span(), "path (only integer `MAX`/`MIN` and constants given by --prim)"),
                 }
+            }
+            Expr::Field(f) if matches!(&f.member, syn::Member::Unnamed(ix) if ix.index == 0) => {
+                // `x.0` for a tuple struct whose constructor is given by --prim as the identity (`::Name(T) -> Name=_`)
+                let (l, t) = self.expr(&f.base, env)?;
+                if let Ty::Named { rust, .. } = &t {
+                    if let Some(pr) = self.find_prim("", rust) {
+                        if pr.lean == "_" && pr.args.as_ref().map(|a| a.len() == 1).unwrap_or(false) {
+                            let inner = self.prim_ty(&pr.args.as_ref().unwrap()[0].clone(), e.span())?;
+                            note!(self, prims, format!("`{}` is taken as the identity (so is `.0`)", pr.spec));
+                            return Ok((l, inner));
+                        }
+                    }
+                }
+                self.unsupported(e.span(), "field `.0` (only of a tuple struct whose constructor is given by --prim as the identity)")
             }
             Expr::Field(_) => match self.place(e, env)? {
                 Some(pl) => {
@@ -1283,6 +1298,10 @@ impl<'a> Tr<'a> {
                         Ok((L::comp(format!("List.{name} {} ({f})", r.arg())), Ty::Bool))
                     }
                 }
+            }
+            (Ty::Opt(inner), "map", 1) => {
+                let (f, bt) = self.iter_closure(&m.args[0], inner, env)?;
+                Ok((L::comp(format!("Option.map ({f}) {}", r.arg())), Ty::Opt(Box::new(bt))))
             }
             (Ty::Opt(inner), "map_or", 2) => {
                 // o.map_or(d, f) with `f` an enum constructor `E::V` or a closure `|x| e`
